@@ -43,6 +43,8 @@ CLASS_KEYS = {
     "proj-ignores-tombstone": "C14:triplestoreProjection.EachAdjacentEdge:ignores-origin-DeleteEdge",
     "readeach-lost-all-segments": "C14:BFSTreeFile.ReadEach:scans-raw-file-not-gzip-stream",
     "toseg-index-panic": "C14:SerializedSegment.ToSegment:Edges-index-minus-one-panic",
+    "am-numedges-returns-node-count": "C14:adjacencyMapDigraph.NumEdges:returns-node-count",
+    "ts-numedges-ignores-tombstone": "C14:triplestore.NumEdges:ignores-DeleteEdge",
 }
 
 
@@ -52,7 +54,7 @@ def finding_key(suite, ops, line, msg):
     if cls in CLASS_KEYS:
         return CLASS_KEYS[cls]
     op = ops[line].split() if line < len(ops) else []
-    site = ".".join(op[:3]) if op and op[0] in ("adj", "adj1", "reach", "reach1", "bfs", "bfs1", "norm", "nodes", "tsbfs", "tsdfs") else (op[0] if op else "?")
+    site = ".".join(op[:3]) if op and op[0] in ("adj", "adj1", "reach", "reach1", "bfs", "bfs1", "norm", "nodes", "tsbfs", "tsdfs", "tssl", "dims", "numedges") else (op[0] if op else "?")
     return "C14:%s:%s" % (site, cls)
 
 
@@ -128,7 +130,7 @@ SPEC = {
         "branch.proj.deleted_nodes", "branch.proj.deleted_edges", "branch.proj.nested", "branch.ts.delete_edge",
         "branch.reach.start_on_cycle", "branch.reach.empty", "branch.bfs.distance_ge3", "branch.normalize.am", "branch.normalize.csr",
         "branch.seg.single_node", "branch.tsbfs.both", "branch.tsdfs.in", "branch.traversal.depth_exceeded",
-        "branch.traversal.unbounded_depth", "branch.zone.readeach", "branch.adj1.csr", "branch.toseg",
+        "branch.traversal.unbounded_depth", "branch.zone.readeach", "branch.adj1.csr", "branch.toseg", "branch.tssl.both", "branch.tssl.in", "branch.numedges.proj", "branch.dims", "gen.shape.proj_deletes_non_node",
     ],
     "trusted_base": [
         "RoaringBitmap / cardinality.Bitmap64 native Add/Or/Contains/Each (modelled as ascending lists), Go maps, gammazero/deque, encoding/binary, compress/gzip",
